@@ -333,6 +333,7 @@ def dump_cached(module, constants, view="view", action_constraint="DumpL",
         r = TLCResult()
         r.tr, r.generated, r.distinct, r.depth, r.wall = lines, hdr["generated"], hdr["distinct"], hdr["depth"], 0.0
         r.cached = True
+        r.cache_path = path
         return r
     sc = scratch()
     cfg = os.path.join(sc, "dump.cfg")
@@ -349,4 +350,5 @@ def dump_cached(module, constants, view="view", action_constraint="DumpL",
                                 "depth": r.depth}) + "\n")
             f.write("\n".join(r.tr))
         os.replace(tmp, path)
+        r.cache_path = path
     return r
